@@ -129,6 +129,7 @@ func (t *Template) Execute(wr io.Writer, data interface{}) error {
 	if err := t.escape(); err != nil {
 		return err
 	}
+	verifHook("execute", t.Name())
 	return t.text.Execute(wr, data)
 }
 
@@ -176,6 +177,7 @@ func (t *Template) ExecuteTemplate(wr io.Writer, name string, data interface{}) 
 	if err != nil {
 		return err
 	}
+	verifHook("execute", name)
 	return tmpl.text.Execute(wr, data)
 }
 
